@@ -109,17 +109,19 @@ where
         writeln!(writer, "pub struct {rust_name} {{")?;
         for (part_name, header) in &soap_operation.headers {
             let field_name = as_field_name(part_name);
+            // on the wire a header is the element its part refers to, not the part
+            let xml_name = header.rust_type.xml_name().ok_or(WriterError::InvalidReference)?;
             // generated structs are named in PascalCase
-            let rust_type = to_pascal_case(header.rust_type.xml_name().ok_or(WriterError::InvalidReference)?);
+            let rust_type = to_pascal_case(xml_name);
 
             if let Some(namespace) = header.in_namespace.as_ref() {
                 let abbreviation = namespace.abbreviation.as_str();
                 writeln!(
                     writer,
-                    "#[yaserde(prefix = \"{abbreviation}\", rename = \"{part_name}\")]"
+                    "#[yaserde(prefix = \"{abbreviation}\", rename = \"{xml_name}\")]"
                 )?;
             } else {
-                writeln!(writer, "    #[yaserde(rename = \"{part_name}\")]")?;
+                writeln!(writer, "    #[yaserde(rename = \"{xml_name}\")]")?;
             }
 
             // todo: we should check if the "mustUnderstand" == 1 to make the field required
